@@ -127,6 +127,54 @@ def run_shard(ctx):
         kinds[type(e).__name__] = kinds.get(type(e).__name__, 0) + 1
         run_expr(ctx, e, "public-operators")
     ctx.extras["top_level_types"] = kinds
+    # divisors that the infix operators alone cannot build: Product.safe / Product of fractions as a denominator
+    from y0.dsl import Fraction, P, Product, Sum, Variable
+
+    for i in range(ctx.share({"quick": 800, "thorough": 10000}[ctx.tier])):
+        names = rng.sample([n for n in ge.NAMES if n.isidentifier() and n != "pi*"], 5)
+        a, b, c, d, e_ = (Variable(n) for n in names)
+        atoms = [P(a), P(b | a), P(c), P(d | a), P(a, b), P(e_ | c)]
+        rng.shuffle(atoms)
+        f1, f2, f3 = atoms[0] / atoms[1], atoms[2] / atoms[3], atoms[4] / atoms[5]
+        k = i % 5
+        try:
+            if k == 0:
+                ex_ = atoms[4] / Product.safe([f1, f2])
+            elif k == 1:
+                ex_ = atoms[4] / Product((f1, f2))
+            elif k == 2:
+                ex_ = Fraction(atoms[5], Product((f1, f2, f3)))
+            elif k == 3:
+                ex_ = Sum[a](atoms[4]) / Product.safe([f1, Sum[c](f2)])
+            else:
+                ex_ = Fraction(Product((f1, atoms[4])), Product.safe([f2, f3]))
+        except Exception as ex:  # noqa: BLE001
+            kernel.count(f"C12:builder-raised-{type(ex).__name__}")
+            continue
+        run_expr(ctx, ex_, "product-of-fractions-as-divisor")
+    # deep nesting: e_{n+1} = Sum[B](e_n * P(A, B) / P(A)) (every member denotes P(A)); the printed text must parse at any
+    # depth (the meaning is compared up to depth 6 only: the evaluation of nested sums is exponential in the depth)
+    if ctx.mine(11) or ctx.mine(12):
+        from y0.parser import parse_y0
+
+        A_, B_ = Variable("A"), Variable("B")
+        e_n = P(A_)
+        for depth in range(1, 96):
+            e_n = Sum[B_](e_n * P(A_, B_) / P(A_))
+            if depth <= 6 and ctx.mine(11):
+                run_expr(ctx, e_n, f"nested-depth-{depth}")
+            elif depth in (20, 40, 60, 70, 80, 90, 95):
+                text = str(e_n)
+                kernel.LOG.reset_case({"expr": f"nested-depth-{depth}", "text": text[:200], "origin": "deep-nesting"})
+                kernel.count("C12:deep-nesting-parsed")
+                try:
+                    parsed = parse_y0(text)
+                    if str(parsed) != text:
+                        kernel.violation(PROP, "text-equal", f"the depth-{depth} nested sum re-prints differently after parsing",
+                                         case={"deep": depth})
+                except Exception as ex:  # noqa: BLE001
+                    kernel.violation(PROP, "parses", f"parse_y0 of the depth-{depth} nested sum raised {type(ex).__name__}: "
+                                     f"{str(ex)[:120]}", case={"deep": depth})
 
 
 def replay(case):
@@ -136,4 +184,18 @@ def replay(case):
         def case(self, *a, **k):
             pass
 
+    if case.get("deep"):
+        from y0.dsl import P, Sum, Variable
+        from y0.parser import parse_y0
+
+        A_, B_ = Variable("A"), Variable("B")
+        e_n = P(A_)
+        for _ in range(case["deep"]):
+            e_n = Sum[B_](e_n * P(A_, B_) / P(A_))
+        try:
+            if str(parse_y0(str(e_n))) != str(e_n):
+                kernel.violation(PROP, "text-equal", "deep nested sum re-prints differently", case=case)
+        except Exception as ex:  # noqa: BLE001
+            kernel.violation(PROP, "parses", f"deep nested sum: {type(ex).__name__}", case=case)
+        return
     run_expr(_C(), ge.from_src(case["expr"]), case.get("origin", "replay"))
